@@ -1,20 +1,21 @@
 #!/venv/bin/python
-"""Evaluate every finished second-round seeded change that has no result yet (2 at a time)."""
+"""Evaluate every finished seeded change of a later round (ROUND=2 default, ROUND=3: /tmp/wt3_Cxx -> Cxx-r3mN) that has no result yet."""
 import glob, json, os, subprocess, sys, time
 from concurrent.futures import ThreadPoolExecutor
 VERIF = os.path.dirname(os.path.dirname(os.path.abspath(__file__)))
 head = subprocess.run("git -C /repo rev-parse HEAD", shell=True, capture_output=True, text=True).stdout.strip()
 todo = []
-for wt in sorted(glob.glob("/tmp/wt2_C*")):
+RND = os.environ.get("ROUND", "2")
+for wt in sorted(glob.glob(f"/tmp/wt{RND}_C*")):
     if not os.path.isdir(wt):
         continue
-    pid = os.path.basename(wt)[4:]
+    pid = os.path.basename(wt).split("_")[1]
     if not os.path.exists(os.path.join(wt, "mutants", "README.md")):
         continue            # author not finished
     for n in (1, 2, 3):
         if not os.path.exists(os.path.join(wt, "mutants", f"m{n}.diff")):
             continue
-        out = os.path.join(VERIF, "seeded", f"{pid}-r2m{n}", "meta.json")
+        out = os.path.join(VERIF, "seeded", f"{pid}-r{RND}m{n}", "meta.json")
         if os.path.exists(out) and json.load(open(out)).get("checks_run"):
             continue
         todo.append((wt, n, pid))
@@ -23,9 +24,9 @@ done_wt = set()
 def job(group):
     out = []
     for wt, n, pid in group:          # one worktree is used by one evaluation at a time
-        r = subprocess.run(f"tools/eval_mutant.py {wt} {n} {pid} --out {pid}-r2m{n}", shell=True, cwd=VERIF, capture_output=True, text=True)
+        r = subprocess.run(f"tools/eval_mutant.py {wt} {n} {pid} --out {pid}-r{RND}m{n}", shell=True, cwd=VERIF, capture_output=True, text=True)
         lines = [l for l in (r.stdout + r.stderr).splitlines() if l.startswith(("confirm", "check")) or "Error" in l or "VIOLATION" in l]
-        msg = f"{pid} r2m{n}: " + " | ".join(l.strip()[:120] for l in lines[:4])
+        msg = f"{pid} r{RND}m{n}: " + " | ".join(l.strip()[:120] for l in lines[:4])
         print(msg, flush=True)
         out.append(msg)
     return out
